@@ -44,6 +44,14 @@ def within(d, c):
 # cut: "none" or a number token; ud: 1 = the caller's dictionary is passed as output_dict; obj: 0 ids, 1 the network's Node
 # objects, 2 fresh Node objects with the same ids
 # ---------------------------------------------------------------------------------------------------
+PREP_FILES = ["a", "a", "a.npy", "b", "b.npy", "npy", "npy.npy", ".npy", "t.np", "abcd", "abcd.npy"]
+
+
+def prep_path(name):
+    """the file a user means by `name`: numpy's save and load_prep both add the extension when it is missing"""
+    return name if name.endswith(".npy") else name + ".npy"
+
+
 SESS_CUTS = ["none", "none", 0, "1/2", 1, 2, 3, 5]
 SESS_W = [0, 0, 1, 1, 2, 3, "1/2", "3/2"]
 
@@ -110,6 +118,9 @@ def random_session(rng):
             ops.append(["p", cut()]); prepared = True
         elif r < 0.84 and prepared:
             ops.append(["v"])
+        elif r < 0.875 and (prepared or rng.random() < 0.15):
+            # save_prep / load_prep on named files: with and without the extension, shorter than four characters, never written
+            ops.append([rng.choice(["S", "S", "L", "L", "L"]), rng.choice(PREP_FILES)])
         elif r < 0.91 and prepared:
             ops.append([rng.choice(["q", "q", "h"]), rng.choice(nodes), rng.choice(nodes), obj()])
         else:
@@ -141,6 +152,24 @@ def world_layout(rng, n):
         return [[x0 + 3 * k * rng.randint(0, 1), y0 + 4 * k * rng.randint(0, 1)] for _ in range(n)]
     p = [rng.randint(0, 4), rng.randint(0, 4)]          # all nodes at the same place: the heuristic is 0
     return [list(p) for _ in range(n)]
+
+
+GEO_CUTS = [0, 1, 2, 3, 3, 4, 5, 6, 8, 10, "1/2", "7/2", "none"]
+
+
+def geo_centre(rng, pos, floats):
+    """centre of a GEOMETRIC extraction. Exact stream: at a rational planimetric distance of every node of the layout — the place
+    of a node (any altitude: distance2DTo ignores it), or any point of the line when the nodes are on a horizontal / vertical line.
+    Float stream: anywhere on the 1/16 lattice."""
+    if floats:
+        return [rng.randint(0, 128) / 16.0, rng.randint(0, 128) / 16.0, rng.choice([0.0, 0.0, rng.randint(0, 64) / 16.0])]
+    u = rng.choice([0, 0, 0, 7, "5/2"])
+    if all(Fraction(nc.num(q[1])) == Fraction(nc.num(pos[0][1])) for q in pos) and rng.random() < 0.6:
+        return [rng.choice([0, 1, 2, 3, 4, 5, 6, "1/2", "9/2", -2, 9]), pos[0][1], u]
+    if all(Fraction(nc.num(q[0])) == Fraction(nc.num(pos[0][0])) for q in pos) and rng.random() < 0.6:
+        return [pos[0][0], rng.choice([0, 1, 2, 3, 4, 5, "3/2", -1, 8]), u]
+    q = rng.choice(pos)
+    return [q[0], q[1], u]
 
 
 def fsqrt(q):
@@ -242,11 +271,17 @@ def random_world(rng, floats=False):
             ops.append([k, ["p", cut()]]); S["prep"] = True
         elif r < 0.96 and S["prep"]:
             ops.append([k, [rng.choice(["q", "q", "h"]), rng.choice(nodes), rng.choice(nodes), obj()]])
-        else:
+        elif r < 0.97:
             ops.append([k, ["s", rng.choice(nodes), cut(), obj()]])
+        elif rng.random() < 0.8:
+            # sub_network(ENUCoords, radius, "GEOMETRIC"): the centre at a rational planimetric distance of every node (exact stream)
+            ops.append([k, ["g", geo_centre(rng, net["pos"], floats), rng.choice(GEO_CUTS)]])
+        else:
+            # the centre given as a Node object / an id: the code raises (see Model/GraphAStar.lean, WOp.subGeo)
+            ops.append([k, ["G", rng.choice(nodes), rng.choice(GEO_CUTS), obj()]])
     if floats:      # cut-offs as floats; a third of them off the integers
         for _, op in ops:
-            i = {"d": 3, "r": 3, "l": 2, "a": 1, "p": 1, "s": 2}.get(op[0])
+            i = {"d": 3, "r": 3, "l": 2, "a": 1, "p": 1, "s": 2, "g": 2, "G": 2}.get(op[0])
             if i is not None and op[i] != "none":
                 op[i] = float(Fraction(op[i])) if rng.random() < 0.6 else rng.uniform(0, 12)
     return {"kind": "fworld" if floats else "world", "nets": nets, "ops": ops}
@@ -270,7 +305,8 @@ def world_valid(case):
 
 def world_regimes(case):
     """for the histogram: what kinds of searches with a target the case holds"""
-    tags = {"dijkstra": 0, "dijkstra_while_another_is_astar": 0, "astar_weight_0": 0, "astar_consistent": 0, "astar_approx": 0}
+    tags = {"dijkstra": 0, "dijkstra_while_another_is_astar": 0, "astar_weight_0": 0, "astar_consistent": 0, "astar_approx": 0,
+            "astar_no_target": 0}
     S = {}
     for k, op in case["ops"]:
         if op[0] == "c":
@@ -291,6 +327,8 @@ def world_regimes(case):
                 tags["astar_consistent"] += 1
             else:
                 tags["astar_approx"] += 1
+        elif (op[0] in "lap" or (op[0] == "r" and op[2] is None)) and S[k]["mode"] == 1:
+            tags["astar_no_target"] += 1      # list form / all_shortest_distances / prepare / run_routing_forward(s) on an A* object: heuristic 0
     return tags
 
 
@@ -298,7 +336,9 @@ def json_op(op):
     return "%s(%s)" % ({"n": "addNode", "e": "addEdge", "r": "run_routing_forward", "d": "shortest_distance", "l": "shortest_distance[list]",
                         "a": "all_shortest_distances", "p": "prepare", "q": "prepared_shortest_distance",
                         "h": "has_prepared_shortest_distance", "s": "sub_network", "v": "save_prep+load_prep",
-                        "c": "Network", "m": "setRoutingMethod", "w": "setAStarWeight", "x": "sub_network[kept]", "W": "edge.weight="}[op[0]], ",".join(str(x) for x in op[1:]))
+                        "c": "Network", "m": "setRoutingMethod", "w": "setAStarWeight", "x": "sub_network[kept]", "W": "edge.weight=",
+                        "g": "sub_network[GEOMETRIC,coords]", "G": "sub_network[GEOMETRIC,node]",
+                        "S": "save_prep", "L": "load_prep"}[op[0]], ",".join(str(x) for x in op[1:]))
 
 
 def dtok(x):
@@ -352,6 +392,7 @@ class SessOracle:
         self.nodes, self.edges, self.ver = [], [], 0
         self.E = {}            # expected content of the caller's dictionary: key -> (token, graph version when written)
         self.D = None          # expected DISTANCES, same form
+        self.files = {}        # path -> the expected DISTANCES at the moment save_prep wrote it (None: unknown)
         self.fw = None
         self.mode, self.wgt = 0, 1
         self.pos = pos if pos is not None else [[v, 0] for v in range(n)]
@@ -448,6 +489,28 @@ class SessOracle:
         end = pos + (1 if has_dump else 0)
         if r == "err" and k in "rdlsx" and any(v is not None and v not in nodes for v in ([op[1], op[2]] if k in "rd" else [op[1]])):
             return None, end     # a node this network does not hold (see SessRunner.call): the call was not made
+        if k == "S":
+            # save_prep(name): with no table yet the code prints an error and exits (nothing to judge); else the file holds the table
+            if r == "ok":
+                self.files[prep_path(op[1])] = None if self.D is None else dict(self.D)
+            elif self.D is not None:
+                return "%s: %s although prepare was called before" % (what, r), end
+            return None, end
+        if k == "L":
+            # load_prep(name): DISTANCES becomes the table the file was written with; what prepared_shortest_distance answers
+            # afterwards is judged against it. A file never written: the code raises, nothing to judge
+            path = prep_path(op[1])
+            if path in self.files:
+                if r != "ok":
+                    return "%s: %s although save_prep wrote that file" % (what, r), end
+                self.D = None if self.files[path] is None else dict(self.files[path])
+            elif r == "ok":
+                self.D = None
+            return None, end
+        if k == "G" and r == "err":
+            # sub_network(<Node or id>, cut, "GEOMETRIC") raised (AttributeError: the code asks the node's ID for `.coord`):
+            # nothing was returned, nothing to judge — the statement is about reported distances (the model answers `err` too)
+            return None, end
         if isinstance(r, str) and r not in ("ok",):
             return "%s: %s" % (what, r), end
         if k == "n":
@@ -548,7 +611,7 @@ class SessOracle:
                     return "%s = %s, expected the prepared distance %s" % (what, r[1], nc.tok(D[key][0])), end
         elif k == "x":
             pass        # the returned network becomes a member of the family, judged on its own edge list (`extracted`)
-        elif k == "s":
+        elif k in ("s", "g", "G"):
             # the returned object is a Network: its own distances must be right (its Node objects are shared with `net`)
             ids, eids, probe = r[1], r[2], r[3]
             sub_edges = [e for e in edges if e[0] in eids]
@@ -735,6 +798,23 @@ def enum_families(tier):
     return out
 
 
+def enum_geo(tier):
+    """exhaustive small scope of the GEOMETRIC extraction: three nodes at x = 0, 1, 2 on a line, every ordered list of two edges over
+    {src, tgt} x orientations {-1, 0, 1} (weight 1; thorough: weights {0, 1, 2} on the first edge), and on each of these networks every
+    centre in {0, 1/2, 1, 2} x every radius in {0, 1/2, 1, 2}: 16 extractions, each probed on every ordered pair of its nodes."""
+    out = []
+    al = [(a, b, o) for a in range(3) for b in range(3) for o in (-1, 0, 1)]
+    for w0 in ((1,) if tier == "quick" else (0, 1, 2)):
+        for e0 in al:
+            for e1 in al:
+                ops = [[0, ["c"]], [0, ["e", 0, e0[0], e0[1], w0, e0[2]]], [0, ["e", 1, e1[0], e1[1], 1, e1[2]]]]
+                for x in (0, "1/2", 1, 2):
+                    for rad in (0, "1/2", 1, 2):
+                        ops.append([0, ["g", [x, 0, 0], rad]])
+                out.append({"kind": "world", "ex": 1, "nets": [{"n": 3, "pos": [[0, 0], [1, 0], [2, 0]]}], "ops": ops})
+    return out
+
+
 class SessRunner:
     """one real `Network` object and what the caller holds (the Node objects handed in, a dictionary passed as
     output_dict); `call(op)` performs one op of the session forms above and returns its result record(s)"""
@@ -748,6 +828,13 @@ class SessRunner:
         self.pos = pos          # node id -> [x, y] (default: (v, 0))
         self.lab = (lambda v: None if v is None else "n%d" % v) if strs else (lambda v: v)
         self.unlab = (lambda x: int(x[1:])) if strs else (lambda x: x)
+
+    def close(self):
+        """remove the directory of the files save_prep wrote"""
+        if getattr(self, "dir", None) is not None:
+            import shutil
+            shutil.rmtree(self.dir, ignore_errors=True)
+            self.dir = None
 
     def coords(self, v, dy=0):
         ENUCoords = self.mods[5]
@@ -821,6 +908,41 @@ class SessRunner:
             # searches on the returned network (it shares the Node objects with `net`), then `net` goes on
             probe = [[dtok(sub.shortest_distance(a, b)) for b in ids] for a in ids]
             r = ["s", [unlab(x) for x in ids], list(sub.getEdgesId()), probe]
+        elif k in ("S", "L"):
+            # save_prep / load_prep with a bare file name, in a directory of this object's own (so that `len(filename) < 4` can occur)
+            import tempfile, os
+            if getattr(self, "dir", None) is None:
+                self.dir = tempfile.mkdtemp(prefix="c06prep")
+            cwd = os.getcwd()
+            os.chdir(self.dir)
+            try:
+                if k == "S":
+                    net.save_prep(op[1])
+                else:
+                    net.load_prep(op[1])
+                r = "ok"
+            except SystemExit:
+                r = "err"       # save_prep without DISTANCES: "Error: prepare function must be called …", exit(1)
+            except FileNotFoundError:
+                r = "err"
+            finally:
+                os.chdir(cwd)
+        elif k in ("g", "G"):
+            # GEOMETRIC extraction (no spatial index on the network): centre = coordinates (g) or a Node object / an id (G)
+            cutv = 1e300 if op[2] == "none" else nc.pynum(op[2])
+            if k == "G" and self.lab(op[1]) not in net.NODES:
+                r = "err"       # a node this network does not hold: not called (as for the other calls)
+            else:
+                try:
+                    centre = ENUCoords(nc.pynum(op[1][0]), nc.pynum(op[1][1]), nc.pynum(op[1][2])) if k == "g" else arg(op[1], op[3])
+                    sub = net.sub_network(centre, cutv, "GEOMETRIC", verbose=False)
+                    ids = sub.getNodesId()
+                    probe = [[dtok(sub.shortest_distance(a, b)) for b in ids] for a in ids]
+                    r = ["s", [unlab(x) for x in ids], list(sub.getEdgesId()), probe]
+                except AttributeError:
+                    if k == "g":
+                        raise
+                    r = "err"
         elif k == "x":
             # sub_network whose result is KEPT by the caller (it becomes a member of the family: see impl_fam)
             self.extracted = net.sub_network(arg(op[1], op[3]), 1e300 if op[2] == "none" else nc.pynum(op[2]), verbose=False)
@@ -856,6 +978,16 @@ class P(Prop):
         (M, "TV.C06.output_dict_entries_sound", "every output_dict entry of any search (any target, any cut-off) is the true distance of its key, within the cut-off; entries = visited nodes"),
         (M, "TV.C06.dictionary_accumulates", "all_shortest_distances / prepare on a dictionary with earlier entries: keys within the cut-off get the true distance, all other keys keep their value (any number of calls)"),
         (M, "TV.C06.sub_network_edges", "sub_network(s, cut, TOPOLOGIC) keeps exactly the edges whose two ends are within the cut-off of s"),
+        (M, "TV.C06.sub_network_distances", "distances on the network sub_network returns, any selection rule: shortest_distance(s,t) there = the minimum over the parent's permitted walks that stay inside the extract (sentinel iff none); never below the parent's distance; equal to it iff a shortest walk of the parent stays inside"),
+        (M, "TV.C06.sub_network_topologic_is_extract", "the TOPOLOGIC result is such an extract (keep = both ends visited), so sub_network_distances applies to it"),
+        (M, "TV.C06.sub_network_topologic_source_distances", "on sub_network(s, cut, TOPOLOGIC) the distance from s to every node within the cut-off is the parent's distance"),
+        (M, "TV.C06.sub_network_geometric_edges", "sub_network(centre, cut, GEOMETRIC) (no spatial index) keeps exactly the edges with an end within the planimetric distance cut of the centre"),
+        (M, "TV.C06.sub_network_geometric_distances", "on sub_network(centre, cut, GEOMETRIC): shortest_distance = minimum over the parent's walks using only edges with an end within cut of the centre; >= the parent's distance; equal iff a shortest walk of the parent uses only such edges, in particular when all its vertices are within cut"),
+        (M, "TV.C06.sub_network_geometric_call", "sub_network(.., GEOMETRIC) as a call on an object of a program: coordinates -> the edges above, object left exactly as it was (no search, no flag touched); a Node object or an id as centre -> the code raises"),
+        (M, "TV.C06.load_prep_reads_what_save_prep_wrote", "for every file name load_prep reads the path numpy's save wrote (extension added by both when missing, names shorter than four characters, '.npy' itself)"),
+        (M, "TV.C06.save_load_roundtrip", "save_prep(f), then any calls (searches, further prepare, new edges, other files), then load_prep(f or f with/without .npy): DISTANCES is the table saved, prepared_shortest_distance / has_prepared_shortest_distance answer for every pair what they answered when save_prep was called"),
+        (M, "TV.C06.save_then_load_is_identity", "save_prep(f) immediately followed by load_prep(f) leaves the object as it was: the one-step model used by the world and family streams is the composition of the two calls"),
+        (M, "TV.C06.world_sub_network_geometric", "in any state of any program over several Network objects, sub_network(ENUCoords, cut, GEOMETRIC) on an object returns the edges with an end within cut of the centre and leaves the object as it was; distances on the returned network are weights of walks of the object's graph through kept edges, never below the object's own distances"),
         (M, "TV.C06.search_starts_clean", "__resetFlags + source.poids = 0 yields the initial labelling whatever flags earlier calls left on the nodes"),
         (M, "TV.C06.session_invariant", "after any sequence of addNode / addEdge / searches / all_shortest_distances / prepare / sub_network calls the object satisfies the session invariant"),
         (M, "TV.C06.session_answers_pure", "in any state reached by any call sequence every call answers with the pure function of the current graph (no trace of earlier searches)"),
@@ -884,14 +1016,19 @@ class P(Prop):
         (M, "TV.C06.astar_heuristic_consistent", "Node.distanceTo is the Euclidean distance (triangle inequality proved, any sqrt that is a square root on an ordered field): with 0 <= astar_wgt and every permitted arc weighing at least astar_wgt x the straight-line distance of its ends (the oracle's predicate) the heuristic towards any target is consistent and smallest at the target"),
         (M, "TV.C06.world_astar_metric_distance_correct", "the property for A* at full strength, hypotheses on the configuration only: in any program, on an A* object with 0 <= astar_wgt and arcs >= astar_wgt x straight-line length, shortest_distance(s,t[,cut]) = the minimum over permitted walks, sentinel iff none, true distance whenever within the cut-off"),
         (M, "TV.C06.world_astar_call_is_pure", "in any state of such a program a search with a target on an A* object answers, and fills output_dict, as the pure A* search on its current graph (flags of earlier searches are reset)"),
+        (M, "TV.C06.astar_cut_needs_smallest_at_target", "the hypothesis h(t) <= h(v) of astar_cut does not follow from consistency + h(t) = 0: a 4-node network with a consistent heuristic, 0 at the target, negative elsewhere, where A* with cut-off 7 reports the sentinel for a distance of 5"),
         (M, "TV.C06.astar_old_inflates", "what fix c78e3ab repaired: on the road 0-10-1-10-2 (consistent heuristic) the PRE-FIX loop (HOld: poids = g + h) reported 30; the model of the present code, Dijkstra and the true distance are 20, also under the cut-off 20"),
     ]
     partial = []
     open_statements = ["float weights: the theorems need only a linear order, a + 0 = a, 0 <= w -> a <= a + w and a <= b -> a + w <= b + w (no associativity: code and Walk both add from the source outwards), "
                        "which IEEE round-to-nearest addition has on non-NaN doubles; they are stated with Mathlib's ordered-monoid classes, so the instance for IEEE doubles is not constructed in Lean "
                        "(the float stream compares with exact rational distances at 1e-9 relative)",
-                       "save_prep / load_prep are modelled as 'the dictionary read back is the dictionary written' (numpy's pickle is exercised by the sessions, not modelled); "
-                       "sub_network in GEOMETRIC mode is outside the model; in the family model (shared Node objects) every member routes with Dijkstra "
+                       "save_prep / load_prep: the file names (numpy's and load_prep's rules for the extension), the files as snapshots of DISTANCES, missing files and a missing table are modelled "
+                       "(Model/GraphPrepFile.lean, session stream); what numpy's pickle does to the dictionary is taken to be the identity on keys and values (exercised through real files, not modelled; "
+                       "int / float types of the values are not distinguished: tokens are compared as rationals); every object saves to a directory of its own — a file written by one Network object and "
+                       "loaded by another is not modelled; in the world and family streams only the one-step save+load is driven; "
+                       "sub_network in GEOMETRIC mode is modelled for a network WITHOUT spatial index (to_run = every edge) and driven in the world streams only (the objects that have coordinates); "
+                       "with a spatial index (to_run = spatial_index.neighborhood(...)) it is outside the model; in the family model (shared Node objects) every member routes with Dijkstra "
                        "(setRoutingMethod on a member of a family is not modelled: the world model has the settings, with private Node objects)",
                        "A*: exactness is proved in exact arithmetic (ordered cancellative monoid); with float weights the g + h comparisons are subject to rounding (float world stream: 1e-9 relative). "
                        "sqrt is a parameter of the model, assumed to be a square root on the non-negative elements of an ordered field (IsSqrt; the Euclidean triangle inequality is proved from that); A* with a heuristic that is NOT consistent is outside the statement "
@@ -904,6 +1041,10 @@ class P(Prop):
                 "before recording, 'other end' rule, visite guard, strict < relaxation, output_dict), shortest_distance (pair and list form, ids or Node objects, with output_dict), "
                 "all_shortest_distances (fresh or caller's dictionary), prepare, prepared_shortest_distance, has_prepared_shortest_distance, sub_network (TOPOLOGIC) — "
                 "as pure functions (Model/Graph.lean) and as a state machine over call sequences on one object (Model/GraphSession.lean); "
+                "save_prep (DISTANCES None -> exit; np.save's file-name rule) and load_prep (its two file-name ifs, np.load of a missing file, DISTANCES replaced by the table of the file) "
+                "over a file system of named snapshots (Model/GraphPrepFile.lean: saveName, loadName, execF); "
+                "sub_network(centre, cut, 'GEOMETRIC') -> __sub_network_geometric on a network without spatial index, ENUCoords.distance2DTo / norm2D, Python's min, the `> cut` test, "
+                "the isinstance(source, Node) / str front end with __correctInputNode (which makes every Node / id centre raise) — WOp.subGeo, subEdgesGeo in Model/GraphAStar.lean, on the objects of a world; "
                 "several Network objects holding the SAME Node objects — what sub_network returns (__sub_network_routing: sub_net.addEdge(e, e.source, e.target)) and what a caller "
                 "obtains by filling two networks from one pool of nodes: one common store of poids / visite / antecedent flags, __resetFlags over the calling network's own NODES only, "
                 "the loop with the explicit priority_dict on whatever the store holds; Edge.weight as a live attribute of Edge objects shared by a network and its extracts "
@@ -922,7 +1063,8 @@ class P(Prop):
             "Random set/pop sequences on priority_dict alone (ties, lowered and raised priorities, pops on empty), comparing results and the _heap list position by position; "
             "random heapify/heappush/heappop sequences on lists of (priority, key) tuples with ties against Python's heapq, list compared position by position. "
             "Sessions: random sequences of 4-22 calls on ONE Network object with <= 6 nodes (addNode, addEdge interleaved with shortest_distance in pair/list form, run_routing_forward with "
-            "the flags read back, all_shortest_distances, prepare/prepared/has_prepared, save_prep+load_prep through a temporary file, sub_network followed by searches on the returned network that shares the Node objects; "
+            "the flags read back, all_shortest_distances, prepare/prepared/has_prepared, save_prep+load_prep through a temporary file, save_prep(name) and load_prep(name) separately on bare file names "
+            "('a', 'a.npy', 'npy', '.npy', 't.np', … in a directory of the object's own: files restored after further prepares and new edges, files never written, a save before any prepare), sub_network followed by searches on the returned network that shares the Node objects; "
             "cut-offs none/0/.5/1/2/3/5; ids, the network's Node objects or fresh equal Node objects as arguments; a caller's dictionary passed repeatedly as output_dict), every answer "
             "checked against Floyd-Warshall on the graph as built so far. "
             "Several (2-3) small networks alive at the same time with their calls interleaved. "
@@ -938,6 +1080,10 @@ class P(Prop):
             "for the value, for every dictionary entry written and for the label of every node run_routing_forward marked visited (the class of the former finding astar-label-accumulates-heuristic, "
             "repaired by c78e3ab: always generated, judged like any other input; its witnesses are corpus cases); "
             "A* with a target otherwise (documented as approximate) -> sentinel iff unreachable when there is no cut-off, and never below the minimum. "
+            "About 3% of the calls of a world are sub_network(.., 'GEOMETRIC'): centre = ENUCoords at a node's place (any altitude) or anywhere on the line of a collinear layout "
+            "(exact stream: every planimetric distance rational), radius in 0..10 / none; the returned network's node ids and edge ids are compared with the model and "
+            "shortest_distance between every two of its nodes is judged against Floyd-Warshall on the edges it holds; a fifth of them pass a Node object or an id as centre "
+            "(the code raises AttributeError, the model answers err, nothing is judged). "
             "Float worlds: the same with nodes anywhere on a 1/16 lattice in the plane or in space (irrational distances, sqrt = IEEE sqrt), float weights (metric x 1..3 or arbitrary, zeros), "
             "float astar_wgt and cut-offs; model instantiated at Float and compared bit for bit, oracle in exact rationals at 1e-9 relative. "
             "Every case is evaluated on freshly executed definitions of network.py / utils.py "
@@ -975,6 +1121,9 @@ class P(Prop):
         s.append("families (networks sharing their Node objects): the two-way unit path 0-1-2%s as network A, B = A.sub_network(s0, c0) kept, for every s0 in {0,1,2} and c0 in {0, 1, none}; "
                  "every sequence of three searches in the patterns A B A and B A B, each any list-form or pair-form shortest_distance on nodes the network holds (%d cases)"
                  % (("", 6768) if tier == "quick" else (", the one-way path 0->1->2 and a path with a zero-weight and a reverse-oriented edge", len(enum_families("thorough")))))
+        s.append("sub_network(.., 'GEOMETRIC'): nodes at x = 0, 1, 2 on a line, every ordered pair of edges over {src,tgt} x orientations {-1,0,1} "
+                 "(weights 1%s): %d networks x every centre in {0, 1/2, 1, 2} x every radius in {0, 1/2, 1, 2}, every ordered pair of nodes of each extract probed"
+                 % (("", 729) if tier == "quick" else ("; first edge 0, 1 or 2", 2187)))
         s.append("heapq: all lists of 0..%d tuples over priorities {0,1} x keys {0,1} (%d lists): heapify, then heappop until IndexError, the list compared after every step"
                  % ((5, 1365) if tier == "quick" else (6, 5461)))
         return s
@@ -1054,6 +1203,8 @@ class P(Prop):
         out += enum_families(tier)
         for _ in range(1500 if tier == "quick" else 25000):
             out.append(random_family(rng))
+        # GEOMETRIC sub_network, exhaustively on three collinear nodes
+        out += enum_geo(tier)
         # several Network objects with their own routing settings (setRoutingMethod / setAStarWeight), calls interleaved
         for _ in range(1500 if tier == "quick" else 25000):
             out.append(random_world(rng))
@@ -1072,7 +1223,8 @@ class P(Prop):
         if case["kind"] in ("world", "fworld"):
             tg = world_regimes(case)
             return {"kind": case["kind"], "networks": sum(1 for _, o in case["ops"] if o[0] == "c"),
-                    "targeted_searches": "+".join(k for k, v in sorted(tg.items()) if v) or "none"}
+                    "targeted_searches": "+".join(k for k, v in sorted(tg.items()) if v) or "none",
+                    "geometric_sub_network": any(o[0] in "gG" for _, o in case["ops"])}
         if case["kind"] == "fam":
             ks = [o[0] for _, o in case["ops"]]
             # searches on a member after another member of the family has searched since this member's last search
@@ -1092,7 +1244,8 @@ class P(Prop):
             return {"kind": "sess", "calls": "<=8" if len(ks) <= 8 else "9-16" if len(ks) <= 16 else "17+",
                     "edge_after_search": any(k == "e" for k in ks[first_q:]), "sub_network": "s" in ks,
                     "output_dict": any(o[0] in "rdl" and o[-2] == 1 or o[0] == "a" and o[2] == 1 for o in case["ops"]),
-                    "node_objects": any(o[0] in "rdlqhs" and o[-1] != 0 for o in case["ops"]), "ids": case.get("ids", "int")}
+                    "node_objects": any(o[0] in "rdlqhs" and o[-1] != 0 for o in case["ops"]), "ids": case.get("ids", "int"),
+                    "prep_files": "load" if "L" in ks else "save" if "S" in ks else "v" if "v" in ks else "-"}
         edges = nc.expand(case)
         ws = [nc.num(e[3]) for e in edges]
         pairs = [(min(e[1], e[2]), max(e[1], e[2])) for e in edges]
@@ -1113,7 +1266,7 @@ class P(Prop):
             for k, o in case["ops"]:
                 if o[0] == "e":
                     seen.add(k)
-                if k in seen and o[0] in "dlarps":
+                if k in seen and o[0] in "dlarpsg":
                     return True
             return False
         if case["kind"] == "fam":
@@ -1199,8 +1352,11 @@ class P(Prop):
         res = []
         with nc.time_limit(10):
             run = SessRunner(self.mods, case.get("ids", "int") == "str")
-            for op in case["ops"]:
-                res += run.call(op)
+            try:
+                for op in case["ops"]:
+                    res += run.call(op)
+            finally:
+                run.close()
         return {"res": res}
 
     def impl_world(self, case):
@@ -1351,6 +1507,10 @@ class P(Prop):
                     toks.append("%d:m,%d" % (k, op[1]))
                 elif op[0] == "w":
                     toks.append("%d:w,%s" % (k, fmt(op[1])))
+                elif op[0] == "g":
+                    toks.append("%d:g,%s,%s" % (k, ",".join(fmt(c) for c in op[1]), "none" if op[2] == "none" else fmt(op[2])))
+                elif op[0] == "G":
+                    toks.append("%d:G,%d,%s" % (k, op[1], "none" if op[2] == "none" else fmt(op[2])))
                 else:
                     sub = self.requests({"kind": "sess", "n": 0, "ops": [op], "fmt": fmt})[0].split(" ")[2]
                     toks += ["%d:%s" % (k, t) for t in sub.split(";")]
@@ -1394,6 +1554,8 @@ class P(Prop):
                     toks.append("s,%d,%s" % (op[1], ct(op[2])))
                 elif k == "v":
                     toks.append("v")
+                elif k in ("S", "L"):
+                    toks.append("%s,%s" % (k, op[1]))
                 if (k in "rd" and op[4]) or (k == "l" and op[3]) or (k == "a" and op[2]):
                     toks.append("u")
             return ["C06.sess %d %s" % (case["n"], ";".join(toks) or "_")]
